@@ -368,7 +368,7 @@ class Driver:
         return Pin(pname(x[0], x[1]))
 
     def tup(self, t):
-        return (self.ids[id(t[0])], int(t[1].name.split("p")[1]))
+        return (self.ids.get(id(t[0]), 997), int(t[1].name.split("p")[1]) if "p" in t[1].name else 0)
 
     def apply(self, op):
         """returns (ok, solved_model_or_None)"""
@@ -380,6 +380,16 @@ class Driver:
                 return True, None
             if op[0] == "add":
                 st = self.structure(op[1])
+                if st.solver is not None and self.sol.structures and self.sol.structures[0].pin_list:
+                    # a placement of the sub-solver by a pin NAME it does not expose: refused, nothing may be left behind
+                    other = self.sol.structures[0]
+                    try:
+                        with self.sol:
+                            st.solver.put("nosuchpin", other.pin_list[0])
+                    except Exception:
+                        pass
+                    else:
+                        self.corrupt = True
                 self.added.add(op[1])
                 self.sol.add_structure(st)
             elif op[0] == "connect":
@@ -444,7 +454,7 @@ class Driver:
     def observe(self, ok, mod):
         sol = self.sol
         o = {"ok": ok,
-             "structs": [self.ids[id(s)] for s in sol.structures],
+             "structs": [self.ids.get(id(s), 997) for s in sol.structures],       # 997: a structure nobody asked for
              "conns": [(self.tup(a), self.tup(b)) for a, b in sol.connections.items()],
              "clist": [self.tup(t) for t in sol.connections_list],
              "free": [self.tup(t) for t in sol.free_pins],
